@@ -17,6 +17,10 @@ _NB = {}
 
 def _init(l2_path):
     l2replay._init(l2_path)
+    _adapt()
+
+
+def _adapt():
     import warnings
     warnings.filterwarnings("ignore")
     import numba
@@ -35,6 +39,13 @@ def _init(l2_path):
             return builder.inttoptr(builder.add(ptr, offset), return_type or cg.voidptr_t)
         return orig(builder, ptr, offset, return_type)
     cg.pointer_add = pointer_add
+    import llvmlite
+    if not hasattr(llvmlite, "llvmpy"):
+        # environment adaptation: the 2021 lowering of ArrayBuilder.field("x") / begin_record("name") spells the i8* type through
+        # llvmlite.llvmpy.core, which llvmlite has since dropped; the same two constructors over llvmlite.ir
+        import types as _types
+        llvmlite.llvmpy = _types.SimpleNamespace(core=_types.SimpleNamespace(Type=_types.SimpleNamespace(
+            pointer=lambda t: ir.PointerType(t), int=lambda n=32: ir.IntType(n))))
     ak = l2replay._STATE["ak"]
     ak._connect._numba.register_and_check()
     np = l2replay._STATE["np"]
@@ -126,6 +137,41 @@ def _init(l2_path):
     @njit
     def p_field_x_at(x, i):
         return x.x[i]
+
+    @njit
+    def p_builder_cmds(b, codes, args):
+        # the ArrayBuilder command alphabet of Builder.tla, interpreted inside compiled code
+        for k in range(len(codes)):
+            c = codes[k]
+            if c == 0:
+                b.null()
+            elif c == 1:
+                b.integer(args[k])
+            elif c == 2:
+                b.real(args[k] / 2.0)
+            elif c == 3:
+                b.boolean(args[k] != 0)
+            elif c == 4:
+                b.begin_list()
+            elif c == 5:
+                b.end_list()
+            elif c == 6:
+                b.begin_tuple(args[k])
+            elif c == 7:
+                b.index(args[k])
+            elif c == 8:
+                b.end_tuple()
+            elif c == 9:
+                b.begin_record()
+            elif c == 10:
+                b.field("x")
+            elif c == 11:
+                b.field("y")
+            elif c == 12:
+                b.end_record()
+            elif c == 13:
+                b.begin_record("P")
+        return len(b)
 
     _NB.update(locals())
 
@@ -289,3 +335,80 @@ def replay_numba(l2_path, cases_path, seed=0, jobs=16, max_forms=None, max_cases
                       "CRASH: a process running Numba-compiled code died (segfault in generated code / libawkward)"))
     total["failed"] = len(fails)
     return total, fails
+
+
+# ------------------------------------------------------------------ Builder.tla behaviours through Numba-compiled code (C20)
+def _nb_code(c):
+    k = c["c"]
+    if k == "null":
+        return 0, 0
+    if k == "int":
+        return 1, c["x"]
+    if k == "real":
+        return (2, c["n"]) if c["d"] == 2 else None
+    if k == "bool":
+        return 3, c["x"]
+    if k == "beginlist":
+        return 4, 0
+    if k == "endlist":
+        return 5, 0
+    if k == "begintuple":
+        return 6, c["n"]
+    if k == "index":
+        return 7, c["i"]
+    if k == "endtuple":
+        return 8, 0
+    if k == "beginrecord":
+        return {"": (9, 0), "P": (13, 0)}.get(c["name"])
+    if k == "field":
+        return {"x": (10, 0), "y": (11, 0)}.get(c["key"])
+    if k == "endrecord":
+        return 12, 0
+    return None
+
+
+def h_builder_numba(case, pick, st, stats):
+    """one Builder.tla behaviour: every command is ONE call of a Numba-compiled interpreter of the command alphabet on the same
+    ak.ArrayBuilder (unboxed and boxed back every time); the interpreter's snapshot after every command is judged exactly like
+    the C++ builder's (replay.judge_builder), errors must arrive as ordinary exceptions, all snapshots are re-read at the end;
+    every 4th case also runs the whole sequence in ONE compiled call"""
+    if not _NB:
+        _adapt()
+    ak, np = st["ak"], st["np"]
+    coded = [_nb_code(c) for c in case["cmds"]]
+    if any(x is None for x in coded):
+        stats["unspec"] += 1
+        return None
+    fn = _NB["p_builder_cmds"]
+    b = ak.ArrayBuilder(initial=pick([1, 2, 8, 1024]))
+    steps, snaps = [], []
+    for (code, arg) in coded:
+        try:
+            n = fn(b, np.array([code], dtype=np.int64), np.array([arg], dtype=np.int64))
+            s = b.snapshot()
+            js = ak.to_json(s)
+            if n != len(b) or n != len(s):
+                return "len(builder) inside compiled code is %d, outside %d, snapshot %d" % (n, len(b), len(s))
+            steps.append({"ok": 1, "len": len(b), "json": js, "valid": ak.validity_error(s) or ""})
+            snaps.append((s, js))
+        except (ValueError, RuntimeError) as e:
+            steps.append({"ok": 0, "exc": type(e).__name__, "msg": str(e)[:120]})
+            break
+        except Exception as e:
+            steps.append({"ok": 0, "exc": type(e).__name__, "msg": str(e)[:200]})
+            break
+    same, diff = 1, ""
+    for k, (s, js) in enumerate(snaps):
+        again = ak.to_json(s)
+        if again != js:
+            same, diff = 0, "snapshot %d was %s now %s" % (k, js, again)
+            break
+    why = replay.judge_builder(case, [{"ok": 1, "steps": steps, "immutable": same, "diff": diff}])
+    if why:
+        return "compiled: " + why
+    if stats["n"] % 4 == 0 and all(o["ok"] == 1 for o in case["obs"]):
+        b2 = ak.ArrayBuilder()
+        fn(b2, np.array([c for c, a in coded], dtype=np.int64), np.array([a for c, a in coded], dtype=np.int64))
+        if ak.to_json(b2.snapshot()) != steps[-1]["json"]:
+            return "compiled: the whole sequence in one call gives %s, command by command %s" % (ak.to_json(b2.snapshot()), steps[-1]["json"])
+    return None
